@@ -274,6 +274,17 @@ def run_once(prop, sc, seed, replay=None, lenient=False, keep_log=False, wall_li
         sim.log_lines = []
     net = N.Net(sim, cfg=dict(sc.get("net") or {}))
     net.cfg["faults"] = [dict(f) for f in net.cfg.get("faults", [])]
+    # which scheduler / network modes this run uses (summed over the batch in the evidence file)
+    if sim.cfg.get("low_prio"):
+        sim.count("mode.starvation")
+    if sim.cfg.get("spawn_stall_pct"):
+        sim.count("mode.stall_after_spawn")
+    if sim.cfg.get("line_gap"):
+        sim.count("mode.line_level_preemption")
+    if net.cfg.get("pipe_capacity") is not None:
+        sim.count("mode.flow_control")
+    if net.cfg.get("recv_cost"):
+        sim.count("mode.recv_cost")
     S.set_sim(sim)
     N.set_net(net)
     ctx = Ctx(sim, net, sc)
